@@ -436,6 +436,19 @@ def run_r5(ctx, rule):
         rule.check(io_set == (arm == "Err(other)"), "flags/io_error/%s" % arm, "read arm %s: io_error is %sparked" % (arm, "" if arm == "Err(other)" else "not "), fn.loc(p[-1]))
     if n < 3:
         rule.bad("flags/arms", "fewer than 3 read arms recognised on returning paths (%d)" % n, kind="anchor-missing")
+    # .. and nothing else writes the two flags: the read arms above are the only places that know whether the source
+    # ended or failed.  Clearing `complete` elsewhere (to "let the caller retry" after an error was picked up) makes the
+    # reader call a source again that already reported its end, and moves the end of input the scanners stopped at;
+    # `io_error` is taken out by check_io_error (Option::take, a call, not a store) and parked by request_more only
+    for f3, bi3, si3, name3 in util.field_stores(facts, DRT):
+        if name3 not in ("complete", "io_error"):
+            continue
+        nid3 = norm(f3.id)
+        rule.check(nid3 == DR + "request_more", "flags/%s-stored-in/%s" % (name3, nid3.rsplit("::", 1)[-1]), "%s is stored by request_more only (found in %s): the flags say what the last read answered and nothing takes that back" % (name3, short(nid3)), f3.loc(bi3))
+    for f3, bi3, si3, name3 in util.mut_field_borrows(facts, DRT):
+        if name3 == "io_error":
+            nid3 = norm(f3.id)
+            rule.check(nid3 in (DR + "check_io_error", DR + "request_more"), "flags/io_error-borrowed-in/%s" % nid3.rsplit("::", 1)[-1], "io_error is borrowed mutably by check_io_error (take) only (found in %s)" % short(nid3), f3.loc(bi3))
     # is_at_end = complete && valid_len == 0 ; is_complete = complete
     f2 = reader_fn(facts, "is_at_end")
     sy = sym(f2)
